@@ -34,6 +34,7 @@ type svcFaultResult struct {
 	Diff      string `json:"diff,omitempty"`
 	NextOK    bool   `json:"next_run_prunes"`
 	Skip      string `json:"skip,omitempty"`
+	Blocked   string `json:"writer_blocked,omitempty"`
 }
 
 func svcFaultOnce(k int) (*svcFaultResult, error) {
@@ -209,6 +210,26 @@ func svcFaultOnce(k int) (*svcFaultResult, error) {
 	phase = 4
 	r.Of = n
 	mu.Unlock()
+	// while the service is STILL RUNNING: another writer must get through (a failed run that
+	// leaks its transaction keeps the write lock until the service stops)
+	if r.Reached && r.Call != "begin" {
+		t0 := time.Now()
+		wctx, wcancel := context.WithTimeout(ctx, 4*time.Second)
+		o, werr := e.execNoDump(wctx, &Op{Kind: "CreateTopic", Name: "projects/p/topics/probe"}, pre2)
+		wcancel()
+		if werr != nil || (o != nil && o.Resp.Kind == "err") || time.Since(t0) > 2*time.Second {
+			msg := ""
+			if werr != nil {
+				msg = werr.Error()
+			} else if o != nil {
+				msg = o.Resp.Msg
+			}
+			r.Blocked = fmt.Sprintf("a CreateTopic issued right after the failed run took %v: %s", time.Since(t0).Round(time.Millisecond), msg)
+		} else {
+			// undo the probe so that the table comparison below is about the failed run only
+			e.SQL.ExecContext(ctx, "DELETE FROM topics WHERE name = ?", "projects/p/topics/probe")
+		}
+	}
 	stop()
 	SetDBHook(e.DSN, nil)
 	post2, err := e.Dump(ctx)
